@@ -183,7 +183,8 @@ def _tuple_prov_term(it, t, conds, depth: int = 0) -> bool:
         # which must be None and excluded by an `is not None` guard on the path
         if len(t[2]) == 1:
             return True
-        return len(t[2]) == 2 and t[2][1] == SNONE and (("cmp", "Is", t, SNONE), False) in flatten_conds(conds)
+        # (the default - None, or a private sentinel object - is excluded by an `is not <default>` guard on the path)
+        return len(t[2]) == 2 and (t[2][1] == SNONE or t[2][1][0] == "name") and (("cmp", "Is", t, t[2][1]), False) in flatten_conds(conds)
     if k == "sub" and t[2][0] == "slice":
         return _tuple_prov_term(it, t[1], conds, depth + 1)
     if t == SNONE:
